@@ -166,6 +166,7 @@ type session struct {
 	readyChecked   bool
 	noJudge        bool
 	resetWithLines bool // the client reset the connection while lines were being entered
+	halfServed     bool // one of the session's requests never reached a handler; the client has left
 	expectOK       bool
 }
 
